@@ -65,7 +65,7 @@ func parentSetup(tier string, seed int64, work string) ([]string, error) {
 }
 
 var backends = []string{"local", "local", "http-handler", "http-skipverify", "http-files", "s3", "sftp", "ssh", "ssh-evil"}
-var corruptions = []string{"flip-first", "flip-middle", "flip-last", "trunc-0", "trunc-1", "trunc-half", "trunc-last", "other-chunk", "other-frame", "raw-in-cacnk", "frame-in-raw", "garbage"}
+var corruptions = []string{"flip-first", "flip-middle", "flip-last", "trunc-0", "trunc-1", "trunc-half", "trunc-last", "other-chunk", "other-frame", "raw-in-cacnk", "frame-in-raw", "garbage", "other-format-sibling"}
 var stacks = []string{"none", "none", "cache", "repaircache", "router", "failover", "dedup", "writededup", "swap"}
 
 type backend struct {
@@ -392,12 +392,39 @@ func run(c *harness.Ctx, i int) {
 
 	// 2. corrupt the stored object of a
 	orig := b.read(a)
-	bad := corrupt(rng, corr, orig, plain[a], b.read(other), uncompressed)
-	if bytes.Equal(bad, orig) {
+	if corr == "other-format-sibling" {
+		// the object in the store's own format is gone; under the name the OTHER format would use for this ID sits a
+		// file that does not hold the chunk (a directory once used with the other setting, a merge of two stores):
+		// a store that looks there must not take what it finds for the chunk
+		wrong := append([]byte(nil), plain[a]...)
+		switch rng.Intn(3) {
+		case 0:
+			wrong[rng.Intn(len(wrong))] ^= 0x20
+		case 1:
+			wrong = append([]byte(nil), plain[other]...)
+		case 2:
+			wrong = wrong[:len(wrong)/2]
+		}
+		sib := &backend{kind: b.kind, uncompressed: !uncompressed, dir: b.dir, s3: b.s3}
+		sib.write(a, storageForm(wrong, !uncompressed))
+		if b.s3 != nil {
+			b.s3.Delete(filepath.ToSlash(b.objPath(a)))
+		} else {
+			os.Remove(filepath.Join(b.dir, b.objPath(a)))
+		}
+		corr = "other-format-sibling"
+	}
+	bad := orig
+	if corr != "other-format-sibling" {
+		bad = corrupt(rng, corr, orig, plain[a], b.read(other), uncompressed)
+	}
+	if corr != "other-format-sibling" && bytes.Equal(bad, orig) {
 		c.Info("backend=%s corruption=%s was a no-op", kind, corr)
 		return
 	}
-	b.write(a, bad)
+	if corr != "other-format-sibling" {
+		b.write(a, bad)
+	}
 
 	// 3. read again through the same stack (a cache may legitimately serve its valid copy) and through a fresh one
 	ch, err = s1.GetChunk(a)
